@@ -182,7 +182,7 @@ func mkSym(t *Term, k types.BasicKind) value {
 	}
 	// a single-byte term whose value is determined by the current domain is concrete
 	if t.IsUnary8() && cur != nil {
-		if d, ok := cur.dom[t.uvar]; ok && !cur.genVars[t.uvar] {
+		if d, ok := cur.dom[t.uvar]; ok {
 			tab := t.ValTable()
 			first := true
 			var val uint64
@@ -572,28 +572,69 @@ func mergeElems(elems []value, idx *Term, typ types.Type) value {
 	if k == types.Invalid {
 		cur.fault("symbolic index into a table of %T", elems[0])
 	}
-	w, _ := kindInfo(k)
-	// group equal values to keep the ite chain short
+	// feasible indices: under the path's domain when the index depends on one byte
+	feas := make([]bool, len(elems))
+	nfeas := 0
+	if idx.IsUnary8() {
+		tab := idx.ValTable()
+		d := cur.domOf(idx.uvar)
+		for x := 0; x < 256; x++ {
+			if setHas(d, x) && tab[x] < uint64(len(elems)) && !feas[tab[x]] {
+				feas[tab[x]] = true
+				nfeas++
+			}
+		}
+	} else {
+		hi := umax(idx)
+		for i := range feas {
+			if uint64(i) <= hi {
+				feas[i] = true
+				nfeas++
+			}
+		}
+	}
+	if nfeas == 0 {
+		cur.fault("symbolic table index has no feasible value")
+	}
+	// group equal values; each group's condition is a disjunction of index ranges
 	type grp struct {
 		val  *Term
 		cond *Term
 	}
 	var groups []grp
 	byVal := map[*Term]int{}
-	for i, e := range elems {
-		tv := termOf(e)
-		eq := c.Eq(idx, c.Const(idx.W, uint64(i)))
+	i := 0
+	for i < len(elems) {
+		if !feas[i] {
+			i++
+			continue
+		}
+		tv := termOf(elems[i])
+		j := i
+		// extend the run while the value repeats (infeasible entries inside a run are don't-cares)
+		for j+1 < len(elems) && (!feas[j+1] || termOf(elems[j+1]) == tv) {
+			j++
+		}
+		for j > i && !feas[j] {
+			j--
+		}
+		var rc *Term
+		if i == j {
+			rc = c.Eq(idx, c.Const(idx.W, uint64(i)))
+		} else {
+			rc = c.And(c.Cmp(OpUle, c.Const(idx.W, uint64(i)), idx), c.Cmp(OpUle, idx, c.Const(idx.W, uint64(j))))
+		}
 		if g, ok := byVal[tv]; ok {
-			groups[g].cond = c.Or(groups[g].cond, eq)
+			groups[g].cond = c.Or(groups[g].cond, rc)
 		} else {
 			byVal[tv] = len(groups)
-			groups = append(groups, grp{tv, eq})
+			groups = append(groups, grp{tv, rc})
 		}
+		i = j + 1
 	}
-	_ = w
 	r := groups[len(groups)-1].val
-	for i := len(groups) - 2; i >= 0; i-- {
-		r = c.Ite(groups[i].cond, groups[i].val, r)
+	for g := len(groups) - 2; g >= 0; g-- {
+		r = c.Ite(groups[g].cond, groups[g].val, r)
 	}
 	return mkSym(r, k)
 }
